@@ -134,6 +134,16 @@ CHECKS = {
          "Needs the hook (LOCALCIDER_VERIF=1). Not proved: the distribution of proposals; float exp/log (ln f is exactly 2^-k in the model; g compared "
          "within 1e-9); visits-are-rearrangements is C17's theorem chain and is re-checked on every trace step. Runs are capped at 1500 steps.",
          "Lean 4 proof (state-machine invariants) + per-step trace conformance through a guarded hook"),
+ "C19": ("PARTIAL. Lean theorems: for every point (f+, f-) of the composition simplex the point lies in the closed published polygon of the region the "
+         "exact-threshold rule assigns (so, with C08, a marker lies inside the region whose number the sequence is assigned, for every composition of "
+         "every length); a point strictly inside polygon k is assigned region k; the five polygons cover the simplex; the two Uversky patches cover the "
+         "unit square; the count-based region function of C08 is this point rule. Tie: the polygon vertices are read back from the figure the live code "
+         "draws on every run and proved equal (decide) to the published ones. Correspondence: every plotting entry point (object methods and plots "
+         "module, show-with-getFig and save) is called under Agg and the resulting artists are compared with the requested title / labels / limits / "
+         "legend and with marker coordinates and bar heights from the real getters AND from the model; region agreement on the real artists for every "
+         "composition with N <= 14/24.",
+         "Argument forwarding is decided by correspondence (differential), not by a theorem; pixels, fonts and legend appearance are out of reach. Defect found and repaired (fix: commit): show_phaseDiagramPlot(getFig=True) dropped the title.",
+         "Lean 4 proof (linear arithmetic over convex polygons) + regenerated polygon facts + figure-artist differential testing"),
  "C20": ("Lean theorems on the character-level model: the rendering is prefix + for residue i (0-based) [space iff 10|i][<br> iff 50|i] + one span with "
          "the residue letter in its palette colour, in order + suffix; stripping tags and blanks recovers the sequence (colours contain no '>'); a "
          "dictionary is accepted iff all 20 one-letter keys are bound to one of the 17 documented names; a rejected update leaves the palette "
